@@ -45,6 +45,8 @@ type job struct {
 	Idx   int    `json:"idx"`    // pathkey variant index
 	Pre   string `json:"prefix"` // bytes: all strings with this prefix up to the length bound
 	Len   int    `json:"len"`
+	Tmpl  int    `json:"tmpl"`          // leaf: template index
+	PreIx []int  `json:"pre,omitempty"` // leaf: indices of the first tokens (the job covers every word with this prefix)
 }
 
 type result struct {
@@ -59,6 +61,7 @@ type result struct {
 	Path     string   `json:"mutated_path,omitempty"`
 	Mutation string   `json:"mutation,omitempty"`
 	Text     string   `json:"document,omitempty"`
+	Errors   int64    `json:"errors,omitempty"` // leaf jobs: documents refused with an error
 	Count    int64    `json:"count,omitempty"`  // bytes jobs: strings tried
 	Panics   []string `json:"panics,omitempty"` // bytes jobs: inputs that panicked
 	Wrote    bool     `json:"write_source,omitempty"`
@@ -120,6 +123,79 @@ func cleanFrame(m string) string {
 var repoFrame = regexp.MustCompile(`github\.com/ogen-go/ogen[^\s(]*\.[A-Za-z0-9_().*]+`)
 
 // generate runs the pipeline on one document.
+// ---------- string-leaf sweeps ----------
+// Leaves whose text has its own syntax (path templates with percent-escapes, references, response
+// codes, media types, patterns, server URLs, discriminator mappings, security requirement names)
+// are parsed by hand-written scanners that index into the string.  Every word up to a length over
+// a small alphabet of that syntax's tokens is placed in the leaf of a minimal document, in a JSON
+// and a YAML spelling.  Oracle: totality (no panic, crash or hang; success or an error) and a
+// reported position inside the document.
+type leafTmpl struct {
+	Name   string
+	Doc    string   // JSON with the hole @@ (replaced by the JSON-quoted word)
+	Prefix string   // constant prefix of every word
+	Alpha  []string // tokens
+	Quick  int      // word length bounds
+	Deep   int
+}
+
+const leafHead = `{"openapi":"3.0.3","info":{"title":"t","version":"1"},`
+
+var leafTmpls = []leafTmpl{
+	{"path template key", leafHead + `"paths":{@@:{"get":{"operationId":"a","parameters":[{"name":"id","in":"path","required":true,"schema":{"type":"string"}}],"responses":{"200":{"description":"ok"}}}}}}`,
+		"/", []string{"/", "a", "%", "4", "e", "z", "{id}", "}", "{"}, 5, 6},
+	{"two path template keys (second)", leafHead + `"paths":{"/a%2Fb/{id}":{"get":{"operationId":"a","parameters":[{"name":"id","in":"path","required":true,"schema":{"type":"string"}}],"responses":{"200":{"description":"ok"}}}},@@:{"get":{"operationId":"b","responses":{"200":{"description":"ok"}}}}}}`,
+		"/a", []string{"/", "b", "%", "2", "F", "f", "{id}", "{x}"}, 5, 6},
+	{"schema $ref value", leafHead + `"x-d":{"a/b":{"type":"integer"},"~":{"type":"boolean"},"":{"type":"number"},"0":{"type":"string"}},"paths":{"/a":{"post":{"operationId":"a","requestBody":{"content":{"application/json":{"schema":{"$ref":@@}}}},"responses":{"200":{"description":"ok"}}}}},"components":{"schemas":{"S":{"type":"string"},"L":{"type":"array","items":{"type":"string"}},"0":{"type":"integer"}}}}`,
+		"", []string{"#/components/schemas/", "#/x-d/", "#", "/", "S", "a~1b", "~0", "~", "0", "1", "%7E", "%", "L/items", "L", ".", ":"}, 4, 5},
+	{"parameter $ref value", leafHead + `"paths":{"/a":{"get":{"operationId":"a","parameters":[{"$ref":@@}],"responses":{"200":{"description":"ok"}}}}},"components":{"parameters":{"P":{"name":"q","in":"query","schema":{"type":"string"}},"0":{"name":"z","in":"query","schema":{"type":"string"}}},"schemas":{"S":{"type":"string"}}}}`,
+		"#/components/", []string{"parameters/", "schemas/", "/", "P", "S", "~", "0", "1", "%", "#", "-"}, 4, 5},
+	{"response code key", leafHead + `"paths":{"/a":{"get":{"operationId":"a","responses":{@@:{"description":"ok"},"200":{"description":"ok"}}}}}}`,
+		"", []string{"2", "0", "5", "X", "x", "default", "-", " ", "1"}, 4, 5},
+	{"media type key", leafHead + `"paths":{"/a":{"post":{"operationId":"a","requestBody":{"content":{@@:{"schema":{"type":"string"}}}},"responses":{"200":{"description":"ok","content":{@@:{"schema":{"type":"string"}}}}}}}}}`,
+		"", []string{"application", "text", "/", "json", "*", ";", " ", "=", "a", "+", "multipart/form-data", "\""}, 4, 5},
+	{"string pattern", leafHead + `"paths":{"/a":{"get":{"operationId":"a","parameters":[{"name":"q","in":"query","schema":{"type":"string","pattern":@@}}],"responses":{"200":{"description":"ok"}}}}}}`,
+		"", []string{"a", "[", "]", "(", ")", "\\", "{", "}", "*", "?", "|", "^", "$", "1", ",", "-", "<", "=", "!", "u", "c", "x", "k", ":"}, 3, 4},
+	{"server url template", `{"openapi":"3.0.3","info":{"title":"t","version":"1"},"servers":[{"url":@@,"variables":{"v":{"default":"d","enum":["d","e"]},"":{"default":"x"}}}],"paths":{"/a":{"get":{"operationId":"a","responses":{"200":{"description":"ok"}}}}}}`,
+		"", []string{"http://h", "/", "{", "}", "v", "%", ":", "{v}", "?", "#"}, 4, 5},
+	{"discriminator mapping value", leafHead + `"paths":{"/a":{"post":{"operationId":"a","requestBody":{"content":{"application/json":{"schema":{"oneOf":[{"$ref":"#/components/schemas/A"},{"$ref":"#/components/schemas/B"}],"discriminator":{"propertyName":"k","mapping":{"a":"#/components/schemas/A","b":@@}}}}}},"responses":{"200":{"description":"ok"}}}}},"components":{"schemas":{"A":{"type":"object","required":["k"],"properties":{"k":{"type":"string"}}},"B":{"type":"object","required":["k"],"properties":{"k":{"type":"string"},"z":{"type":"integer"}}}}}}`,
+		"", []string{"#/components/schemas/", "#", "/", "A", "B", "~", "1", "%", ".", "x"}, 4, 5},
+	{"security requirement name and scheme fields", leafHead + `"paths":{"/a":{"get":{"operationId":"a","security":[{@@:[]}],"responses":{"200":{"description":"ok"}}}}},"components":{"securitySchemes":{"k":{"type":"apiKey","in":"header","name":@@},"":{"type":"http","scheme":@@}}}}`,
+		"", []string{"k", "", " ", "basic", "bearer", "K", "-", "/", "\n"}, 3, 4},
+	{"parameter name", leafHead + `"paths":{"/a/{id}":{"get":{"operationId":"a","parameters":[{"name":@@,"in":"path","required":true,"schema":{"type":"string"}},{"name":@@,"in":"query","schema":{"type":"object","properties":{"a":{"type":"string"}}},"style":"deepObject","explode":true},{"name":@@,"in":"header","schema":{"type":"string"}},{"name":@@,"in":"cookie","schema":{"type":"string"}}],"responses":{"200":{"description":"ok"}}}}}}`,
+		"", []string{"id", "a", "[", "]", "%", " ", ";", "=", "-", "\n", "é"}, 3, 4},
+}
+
+// leafYAML re-spells a JSON document as block YAML through the check's own serializer.
+func leafYAML(jsonDoc string) string {
+	n, err := docmodel.Parse([]byte(jsonDoc))
+	if err != nil {
+		return ""
+	}
+	return docmodel.Style{Format: "block", Quote: "double", Indent: 2, KeyQuote: true}.Emit(n)
+}
+
+func leafWords(t leafTmpl, pre []int, n int, f func(w string)) {
+	w := t.Prefix
+	for _, i := range pre {
+		w += t.Alpha[i]
+	}
+	var rec func(w string, left int)
+	rec = func(w string, left int) {
+		f(w)
+		if left == 0 {
+			return
+		}
+		for _, a := range t.Alpha {
+			if a == "" {
+				continue
+			}
+			rec(w+a, left-1)
+		}
+	}
+	rec(w, n-len(pre))
+}
+
 func generate(data []byte, full bool) (res result) {
 	start := time.Now()
 	defer func() {
@@ -407,6 +483,49 @@ func runJob(j job, bases []baseDoc, muts []docmodel.Mutation) result {
 		}
 		rec(j.Pre, j.Len-len([]rune(j.Pre)))
 		return res
+	case "leaf":
+		var res result
+		res.Outcome = "ok"
+		t := leafTmpls[j.Tmpl]
+		leafWords(t, j.PreIx, j.Len, func(w string) {
+			q, _ := json.Marshal(w)
+			jsonDoc := strings.ReplaceAll(t.Doc, "@@", string(q))
+			for si, text := range []string{jsonDoc, leafYAML(jsonDoc)} {
+				if text == "" {
+					continue
+				}
+				res.Count++
+				r := generate([]byte(text), false)
+				switch {
+				case r.Outcome == "panic":
+					res.Outcome = "panic"
+					if len(res.Panics) < 5 {
+						res.Panics = append(res.Panics, fmt.Sprintf("%s = %q (%s): %s at %s", t.Name, w, []string{"JSON", "YAML"}[si], r.Err, r.Frame))
+					}
+					res.Frame = r.Frame
+					res.Stack = r.Stack
+					if res.Text == "" {
+						res.Text = text
+					}
+				case r.Outcome == "error" && len(r.Pos) > 0:
+					lines := strings.Count(text, "\n") + 1
+					for _, p := range r.Pos {
+						if p[0] < 1 || p[0] > lines {
+							res.Relation = "outside-the-document"
+							res.Err = r.Err
+							res.Pos = r.Pos
+							if res.Text == "" {
+								res.Text = text
+							}
+						}
+					}
+				}
+				if r.Outcome == "error" {
+					res.Errors++
+				}
+			}
+		})
+		return res
 	case "pathkey":
 		variants := docmodel.PathKeyMutations(bases[j.Base].Doc)
 		d := variants[j.Idx]
@@ -562,6 +681,37 @@ func main() {
 			}
 		}
 		jobs = append(jobs, job{Kind: "bytes", Pre: "", Len: 1})
+		for ti, t := range leafTmpls {
+			// the YAML spelling must denote the same data as the JSON one (checked on every
+			// one- and two-token word: the serializer is this check's own)
+			leafWords(t, nil, 2, func(w string) {
+				q, _ := json.Marshal(w)
+				jd := strings.ReplaceAll(t.Doc, "@@", string(q))
+				a, err1 := docmodel.Parse([]byte(jd))
+				b, err2 := docmodel.Parse([]byte(leafYAML(jd)))
+				canon := docmodel.Style{Format: "jsonind"}
+				if err1 != nil || err2 != nil || canon.Emit(a) != canon.Emit(b) {
+					vf.Fatal("leaf template %q word %q: the YAML spelling does not denote the same data (%v %v)", t.Name, w, err1, err2)
+				}
+			})
+			n := t.Quick
+			if r.Thorough() {
+				n = t.Deep
+			}
+			jobs = append(jobs, job{Kind: "leaf", Tmpl: ti, Len: 0})
+			for a := range t.Alpha {
+				if t.Alpha[a] == "" {
+					continue
+				}
+				for b := range t.Alpha {
+					if t.Alpha[b] == "" {
+						continue
+					}
+					jobs = append(jobs, job{Kind: "leaf", Tmpl: ti, PreIx: []int{a, b}, Len: n})
+				}
+				jobs = append(jobs, job{Kind: "leaf", Tmpl: ti, PreIx: []int{a}, Len: 1})
+			}
+		}
 	}
 	results := make([]result, len(jobs))
 	ch := make(chan int, len(jobs))
@@ -628,6 +778,8 @@ func main() {
 
 	relCount := map[string]int64{}
 	outCount := map[string]int64{}
+	leafDocs := map[string]int64{}
+	leafErrs := map[string]int64{}
 	var slow int64
 	// JSON vs YAML spelling must designate the same node: pair up
 	type pk struct{ b, s, m int }
@@ -638,9 +790,17 @@ func main() {
 			continue
 		}
 		outCount[j.Kind+"/"+res.Outcome]++
-		if j.Kind == "bytes" {
+		if j.Kind == "bytes" || j.Kind == "leaf" {
 			r.Eval(res.Count)
 			r.NontrivialN(res.Count)
+			if j.Kind == "leaf" {
+				leafDocs[leafTmpls[j.Tmpl].Name] += res.Count
+				leafErrs[leafTmpls[j.Tmpl].Name] += res.Errors
+				if res.Relation == "outside-the-document" {
+					r.Violation(map[string]string{"class": "reported-position-outside-the-document/leaf " + leafTmpls[j.Tmpl].Name, "relation": res.Relation, "kind": "leaf"}, len(res.Text),
+						kase{Document: leafTmpls[j.Tmpl].Name, Outcome: "error", Error: res.Err, Pos: res.Pos, Text: res.Text, Job: j})
+				}
+			}
 		} else {
 			r.Eval(1)
 			if res.Outcome != "ok" {
@@ -651,17 +811,19 @@ func main() {
 			slow++
 		}
 		name := ""
-		if j.Kind != "bytes" {
+		if j.Kind == "leaf" {
+			name = "leaf: " + leafTmpls[j.Tmpl].Name
+		} else if j.Kind != "bytes" {
 			name = bases[j.Base].Name
 		}
 		k := kase{Document: name, Mutation: res.Mutation, Path: res.Path, Outcome: res.Outcome, Error: res.Err, Reported: res.At, Pos: res.Pos, Stack: res.Stack, Text: res.Text, Job: j}
-		if j.Kind != "bytes" {
+		if j.Kind != "bytes" && j.Kind != "leaf" {
 			k.Spelling = spellings[j.Style].String()
 		}
 		size := len(res.Path) + len(name)
 		switch res.Outcome {
 		case "panic":
-			if j.Kind == "bytes" {
+			if j.Kind == "bytes" || j.Kind == "leaf" {
 				k.Error = strings.Join(res.Panics, "; ")
 			}
 			r.Violation(map[string]string{"class": "panic/" + res.Frame, "frame": res.Frame, "kind": j.Kind}, size, k)
@@ -718,6 +880,8 @@ func main() {
 	r.Set("mutation_kinds", len(muts))
 	r.Set("jobs", len(jobs))
 	r.Set("outcomes", outCount)
+	r.Set("leaf_sweep_documents", leafDocs)
+	r.Set("leaf_sweep_documents_refused", leafErrs)
 	r.Set("position_relation_of_located_errors", relCount)
 	r.Set("worker_crashes", crashes)
 	r.Set("runs_slower_than_20s", slow)
